@@ -172,6 +172,12 @@ class BaseVersion(object):
         # contain a :.
         if m.group("epoch") is None and ":" in m.group("upstream_version"):
             raise ValueError("Invalid version string %r" % version)
+        # The revision is what follows the last hyphen and can not contain a
+        # colon: do not let such a tail be absorbed by the upstream version.
+        if m.group("debian_revision") is None and \
+                ":" in m.group("upstream_version").rpartition("-")[2] and \
+                "-" in m.group("upstream_version"):
+            raise ValueError("Invalid version string %r" % version)
 
         # pylint: disable=attribute-defined-outside-init
         self.__full_version = version  # pylint: disable = unused-private-member
